@@ -400,6 +400,48 @@ pub fn catch<R>(f: impl FnOnce() -> R) -> Result<R, PanicInfo> {
     }
 }
 
+// ---------------------------------------------------------------------------------------------
+// Logging as an ambient condition
+// ---------------------------------------------------------------------------------------------
+
+/// Run indices with this bit set are executed with a Trace-level logger installed. `log`
+/// macros evaluate their arguments only when the level is enabled, so code under test can
+/// behave differently with logging on (the crate's docs recommend RUST_LOG=debug).
+pub const LOG_BIT: u64 = 1 << 40;
+
+struct SinkLogger;
+
+struct NullWriter;
+
+impl std::fmt::Write for NullWriter {
+    fn write_str(&mut self, _: &str) -> std::fmt::Result {
+        Ok(())
+    }
+}
+
+impl log::Log for SinkLogger {
+    fn enabled(&self, _: &log::Metadata<'_>) -> bool {
+        true
+    }
+    fn log(&self, record: &log::Record<'_>) {
+        // format the record (Display impls of the code under test run), discard the text
+        let _ = std::fmt::write(&mut NullWriter, *record.args());
+    }
+    fn flush(&self) {}
+}
+
+static SINK: SinkLogger = SinkLogger;
+
+/// Switches the process-wide log level for the batch / isolated run that is about to start.
+/// All runs of one batch share the mode, so runs stay pure functions of (tape, index).
+pub fn set_logging_for(index: u64) {
+    static INSTALL: Once = Once::new();
+    INSTALL.call_once(|| {
+        let _ = log::set_logger(&SINK);
+    });
+    log::set_max_level(if index & LOG_BIT != 0 { log::LevelFilter::Trace } else { log::LevelFilter::Off });
+}
+
 /// Result of one run as the batch runner sees it.
 #[derive(Debug)]
 pub struct RunResult {
